@@ -185,7 +185,24 @@ def elevation(rng, g, family=None):
 
 def mask_bits(rng, g, prob=None):
     p = rng.choice([0.0, 0.1, 0.25, 0.4]) if prob is None else prob
-    return [1 if rng.random() < p else 0 for _ in range(g.n)]
+    m = [1 if rng.random() < p else 0 for _ in range(g.n)]
+    # component-cutting masks: a whole interior row / column of a raster, an interior node of a
+    # profile (regions without any base level appear on one side)
+    if prob is None and rng.random() < 0.25:
+        if g.kind == "raster" and g.rows >= 3 and g.cols >= 3:
+            m = [1 if rng.random() < 0.05 else 0 for _ in range(g.n)]
+            if rng.random() < 0.5:
+                c = rng.randrange(1, g.cols - 1)
+                for r in range(g.rows):
+                    m[r * g.cols + c] = 1
+            else:
+                r = rng.randrange(1, g.rows - 1)
+                for c in range(g.cols):
+                    m[r * g.cols + c] = 1
+        elif g.kind == "profile" and g.size >= 5:
+            m = [0] * g.n
+            m[rng.randrange(1, g.size - 1)] = 1
+    return m
 
 
 def hexes(v):
